@@ -176,10 +176,13 @@ pub fn dump_sheet(ws: &Worksheet) -> SheetDump {
 fn grid_problems(coords: &[(&'static str, Rect)]) -> BTreeSet<(&'static str, &'static str)> {
     let mut out = BTreeSet::new();
     for (kind, r) in coords {
-        if r.r1 == 0 || r.r2 == 0 {
+        // both ends 0 = the axis is absent (whole-column / whole-row range); one end 0 is garbage
+        let rows_absent = r.r1 == 0 && r.r2 == 0 && r.c1 != 0;
+        let cols_absent = r.c1 == 0 && r.c2 == 0 && r.r1 != 0;
+        if (r.r1 == 0 || r.r2 == 0) && !rows_absent {
             out.insert(("row-0", *kind));
         }
-        if r.c1 == 0 || r.c2 == 0 {
+        if (r.c1 == 0 || r.c2 == 0) && !cols_absent {
             out.insert(("col-0", *kind));
         }
         if r.r1 > MAXR || r.r2 > MAXR || r.c1 > MAXC || r.c2 > MAXC {
@@ -356,7 +359,8 @@ fn rc(s: &str) -> Rect {
         for ch in letters.chars() {
             c = c * 26 + (ch as u32 - 'A' as u32 + 1);
         }
-        (digits.parse().unwrap(), c)
+        // a corner without digits (C) or without letters (3) leaves that axis absent (0)
+        (digits.parse().unwrap_or(0), c)
     }
     let mut it = s.split(':');
     let a = cell(it.next().unwrap());
@@ -416,7 +420,7 @@ fn seed_specs(seed: usize) -> [SheetSpec; 2] {
             cols: vec![(3, 11.0, false)],
             merges: vec![rc("A1:B2"), rc("C3:C5"), rc("B2:D2")],
             comments: vec![(1, 1, "note-A1"), (4, 3, "note-C4"), (2, 4, "note-D2")],
-            cfs: vec![(1, vec![rc("A1:B3"), rc("D4:D6")]), (2, vec![rc("C2")])],
+            cfs: vec![(1, vec![rc("A1:B3"), rc("D4:D6")]), (2, vec![rc("C2")]), (4, vec![rc("C:D")]), (5, vec![rc("3:4"), rc("F:F")])],
             filter: Some(rc("B2:D6")),
         },
         _ => SheetSpec {
